@@ -10,6 +10,7 @@ import (
 	"go/constant"
 	"go/token"
 	"go/types"
+	"golang.org/x/tools/go/ssa"
 	"math/big"
 	"regexp"
 	"sort"
@@ -723,12 +724,16 @@ func (e *Engine) toIdxTV(tv TV) string {
 func (e *Engine) evalIndex(env *Env, v *ast.IndexExpr) TV {
 	x := e.eval(env, v.X)
 	i := e.eval(env, v.Index)
-	if x.T == byteStreamT {
+	if x.T == byteStreamT || x.T == u32StreamT {
 		if e.ar.mode != ModeInt {
-			sfail("ghost byte streams need the int encoding")
+			sfail("ghost streams need the int encoding")
 		}
 		idx := e.toMath(i).V.(*Sc).T
-		return TV{V: &Sc{fmt.Sprintf("(select %s %s)", x.V.(*Sc).T, idx)}, T: types.Typ[types.Uint8]}
+		et := types.Typ[types.Uint8]
+		if x.T == u32StreamT {
+			et = types.Typ[types.Uint32]
+		}
+		return TV{V: &Sc{fmt.Sprintf("(select %s %s)", x.V.(*Sc).T, idx)}, T: et}
 	}
 	switch xt := x.T.Underlying().(type) {
 	case *types.Slice:
@@ -996,6 +1001,35 @@ func (e *Engine) evalCall(env *Env, c *ast.CallExpr) TV {
 		}
 		k := e.materialize(e.eval(env, c.Args[1]), mt.Key())
 		return TV{V: &Sc{e.mapPresent(env.cur, mt, m.V.(*Sc).T, e.flatten(mt.Key(), k.V)[0])}, T: boolT}
+	case "apply":
+		// apply(f, x...): the result of calling the function value f (a closure the
+		// caller passed in) on x; the closure body is executed symbolically on a
+		// copy of the current state (its effects are discarded)
+		if e.vc.noDef > 0 {
+			sfail("apply() inside a quantifier")
+		}
+		f := e.eval(env, c.Args[0])
+		fv, ok := f.V.(*FuncSV)
+		if !ok || fv.Fn == nil {
+			sfail("apply: the function value is not known at this call site")
+		}
+		var args []SV
+		for i, a := range c.Args[1:] {
+			tv := e.eval(env, a)
+			pt := fv.Fn.Signature.Params().At(i).Type()
+			tv = e.materialize(tv, pt)
+			args = append(args, tv.V)
+		}
+		args = append(args, fv.Bind...)
+		st := env.cur.clone()
+		fr := &Frame{fn: fv.Fn, regs: map[ssa.Value]SV{}, cellOf: map[*ssa.Alloc]*Cell{}, depth: 2, prefix: "apply:"}
+		rt := resultType(fv.Fn.Signature)
+		e.vc.noOblige++
+		rv := func() SV {
+			defer func() { e.vc.noOblige-- }()
+			return e.callStatic(fr, st, fv.Fn, args, rt, token.NoPos)
+		}()
+		return TV{V: rv, T: rt}
 	case "baseof":
 		// baseof(s): identity of the backing array of slice s (0 for nil)
 		x := e.eval(env, c.Args[0])
@@ -1063,6 +1097,11 @@ func (e *Engine) toMath(tv TV) TV {
 	}
 	w, s, ok := intInfo(tv.T)
 	if !ok {
+		switch tv.T.Underlying().(type) {
+		case *types.Pointer, *types.Map, *types.Chan:
+			// object identity as a mathematical integer (for ghost references)
+			return TV{V: &Sc{e.flatten(tv.T, tv.V)[0]}, T: mathIntT}
+		}
 		sfail("mathint of non-integer %s", tv.T)
 	}
 	return TV{V: &Sc{e.ar.ToMathInt(tv.V.(*Sc).T, w, s)}, T: mathIntT}
@@ -1100,6 +1139,9 @@ func (e *Engine) mathBinary(op token.Token, x, y TV) TV {
 
 // byteStreamT: ghost sequence of bytes indexed by mathematical position
 var byteStreamT = types.NewNamed(types.NewTypeName(token.NoPos, nil, "bytestream", nil), types.Typ[types.Int64], nil)
+
+// u32StreamT: ghost sequence of uint32 values
+var u32StreamT = types.NewNamed(types.NewTypeName(token.NoPos, nil, "u32stream", nil), types.Typ[types.Int64], nil)
 
 var typeTagT = types.NewNamed(types.NewTypeName(token.NoPos, nil, "typetag", nil), types.Typ[types.Uintptr], nil)
 
